@@ -185,7 +185,7 @@ func init() {
 		graphC01(r, thorough)
 		st.report(r, 3)
 		r.Set("oracle_ambiguous_roundings", int64(oracle.GetV3().Ambiguous))
-		r.Set("exhaustive", true)
+		setExhaustiveUnlessCapped(r)
 		r.Assume("exact oracle: math/big.Rat, FIRST v3.0/v3.1 base equations, weights transcribed in internal/spec; ceiling and Appendix-A round-up agree on all 5,184 cases")
 	})
 }
